@@ -42,16 +42,11 @@ def _sort_uniq(data):
     last_exp = None
     for exp, coeff in data:
         if last_exp == exp:
-            newcoeff = uniq_result[-1][1]+coeff
-            if not newcoeff:
-                uniq_result.pop()
-            else:
-                uniq_result[-1] = last_exp, newcoeff
-
+            uniq_result[-1] = last_exp, uniq_result[-1][1]+coeff
         else:
             uniq_result.append((exp, coeff))
             last_exp = exp
-    return uniq_result
+    return [(exp, coeff) for exp, coeff in uniq_result if coeff]
 
 
 def _get_dependencies(expr):
